@@ -156,6 +156,15 @@ def adversarial():
     out.append(("zod-enum-everywhere", project([STATUS, st("Job", [("st", P("Status")), ("hist", P("Vec", P("Status")))]),
                                                 fn("job", [("s", P("Option", P("Status"))), ("ch", P("Channel", P("Status")))], P("Vec", P("Status"))),
                                                 fn("fire_status", [APP, ("s", P("Status"))], None, [emit("status", ["var", "s"])])])))
+    renamed = st("Person", [("full_name", P("String")), ("r#type", P("User"))])
+    renamed["fields"][0]["serde"] = [{"rename": "full-name"}]
+    out.append(("quoted-keys-and-raw-names", project([USER, renamed, fn("describe", [("r#type", P("Person")), ("r#in", P("Option", P("User")))], P("Person")),
+                                                      fn("watch_raw", [("r#type", P("Person")), ("r#match", P("Channel", P("User")))], None)])))
+    out.append(("nested-commas", project([USER, STATUS,
+                                          st("Deepmap", [("m", P("HashMap", P("String"), P("HashMap", P("String"), Tup(P("User"), P("Status"))))),
+                                                         ("t", Tup(P("HashMap", P("String"), P("User")), Tup(P("Status"), P("i32")), P("bool")))]),
+                                          fn("deepmap", [("d", P("Deepmap")), ("r", P("Result", Tup(P("User"), P("Status")), P("String")))], P("Result", P("Deepmap"), P("String")))])))
+    out.append(("return-vec-vec-user", project([USER, fn("grid_users", [], P("Vec", P("Vec", P("User")))), fn("opt_grid", [], P("Option", P("Vec", P("Vec", P("Option", P("User"))))))])))
     out.append(("struct-named-cmd-params", project([st("GetUserParams", [("x", P("i32"))]),
                                                     fn("get_user", [("id", P("i32")), ("p", P("GetUserParams"))], None)])))
     out.append(("commands-mangle-to-one", project([fn("get_user", [], P("i32")), fn("getUser", [], P("i32"))])))
